@@ -47,7 +47,8 @@ _REP_WHERE = {"between-lines", "value", "param-value", "quoted-param-value", "na
 def _rep_lines(rep):
     if rep["where"] not in _REP_WHERE or not 0 <= rep["k"] <= 100000:
         raise ValueError("malformed case: repetition")
-    run, where = rep["tok"] * rep["k"], rep["where"]
+    k = min(rep["k"], 4000) if rep["tok"].startswith(("BEGIN:", "END:")) else rep["k"]      # deep nesting is RC-AP's; keep it cheap
+    run, where = rep["tok"] * k, rep["where"]
     body = {"between-lines": ["SUMMARY:a" + run + "DESCRIPTION:b"], "value": ["SUMMARY:" + run], "param-value": ["SUMMARY;X-P=" + run + ":v"],
             "quoted-param-value": ['SUMMARY;X-P="' + run.replace('"', "'") + '":v'], "name": [run + ":v"], "param-name": ["SUMMARY;" + run + "=1:v"],
             "typed-value": [rep["typed"] + ":" + run], "before-begin": [], "after-end": []}[where]
@@ -340,7 +341,26 @@ def region_sparse_subdaily_vtimezone_rrule(case):
     return False
 
 
-REGIONS = {"subdaily-vtimezone-rrule": region_subdaily_vtimezone_rrule, "sparse-subdaily-vtimezone-rrule": region_sparse_subdaily_vtimezone_rrule}
+def region_deep_nesting(case):
+    """RC-AP: components nested at least 150 levels deep (the parser keeps an explicit stack and accepts any depth; to_ical(),
+    walk(), property_items() and == recurse once or more per level)"""
+    if case["gen"] == "isolate":
+        return False
+    data = the_input(case)
+    if isinstance(data, str):
+        data = data.encode("utf-8", "replace")
+    depth = deepest = 0
+    for ln in data.upper().split(b"\n"):
+        ln = ln.strip()
+        if ln.startswith(b"BEGIN:") or ln.startswith(b"BEGIN;"):
+            depth += 1
+            deepest = max(deepest, depth)
+        elif ln.startswith(b"END:") or ln.startswith(b"END;"):
+            depth = max(0, depth - 1)
+    return deepest >= 150
+
+
+REGIONS = {"deep-nesting": region_deep_nesting, "subdaily-vtimezone-rrule": region_subdaily_vtimezone_rrule, "sparse-subdaily-vtimezone-rrule": region_sparse_subdaily_vtimezone_rrule}
 
 # ----------------------------------------------------------------------------- strategies
 COMPS = ["VCALENDAR", "VEVENT", "VTODO", "VJOURNAL", "VFREEBUSY", "VTIMEZONE", "STANDARD", "DAYLIGHT", "VALARM", "X-FOO"]
@@ -465,7 +485,7 @@ def hostile_cases(draw, only=None):
         lines = ["BEGIN:VCALENDAR", "BEGIN:VFREEBUSY", f"FREEBUSY:{a}/{b}", "END:VFREEBUSY", "BEGIN:VEVENT", f"RDATE;VALUE=PERIOD:{a}/{b}",
                  f"RDATE:{a}/{b},{b}/{a}", "END:VEVENT", "END:VCALENDAR"]
     else:
-        d = draw(st.sampled_from([1, 8, 33, 64]))
+        d = draw(st.sampled_from([1, 8, 33, 64, 120, 400, 1000, 3000]))
         name = draw(st.sampled_from(["VEVENT", "VCALENDAR", "X-A", "VTIMEZONE", "VALARM"]))
         unbalanced = draw(st.sampled_from([0, 0, 1, -1]))
         lines = [f"BEGIN:{name}"] * d + ["SUMMARY:deep"] + [f"END:{name}"] * max(0, d + unbalanced)
